@@ -533,6 +533,11 @@ func (e *HTTPEndpointExpr) Validate() error {
 		if !e.Headers.IsEmpty() {
 			verr.Add(e, "Headers are set but Payload is not defined.")
 		}
+		if e.Body != nil {
+			if bObj := AsObject(e.Body.Type); bObj != nil && len(*bObj) > 0 {
+				verr.Add(e, "Body attributes are set but Payload is not defined.")
+			}
+		}
 		return verr
 	}
 	if IsArray(e.MethodExpr.Payload.Type) {
